@@ -16,6 +16,7 @@ Variable lay : layout.
 Variable so : bool.                                   (* structure-oriented layout? *)
 
 Definition strand_len (n : string) : nat := match afind (p_strands p) n with Some (_, l, _) => l | None => 0 end.
+Definition total (names : list string) : nat := fold_right (fun n a => strand_len n + a) 0 names.
 Definition struct_names (sn : string) : list string := match afind (p_structs p) sn with Some (names, _, _) => names | None => [] end.
 Definition tstart_of (n : string) : nat := match afind (l_tstart lay) n with Some s => s | None => 0 end.
 Definition enc (n : dnode) : nat :=
